@@ -71,6 +71,21 @@ func c12Dump() {
 			fmt.Fprintf(&b, "%s nr %d -> %s\n", t.name, n, t.info.SyscallNumbers[n])
 		}
 	}
+	// what every documented architecture word resolves to (the table's name, id and x32 mask, or the error), three letter cases
+	var words []string
+	for alias := range c12Aliases {
+		words = append(words, alias, strings.ToUpper(alias), mixedCase(alias))
+	}
+	words = append(words, "")
+	sort.Strings(words)
+	for _, w := range words {
+		info, err := arch.GetInfo(w)
+		if err != nil || info == nil {
+			fmt.Fprintf(&b, "getinfo %q -> error %v\n", w, err)
+		} else {
+			fmt.Fprintf(&b, "getinfo %q -> %s id=%#x mask=%#x names=%d\n", w, info.Name, uint32(info.ID), info.SeccompMask, len(info.SyscallNames))
+		}
+	}
 	os.Stdout.WriteString(b.String())
 }
 
@@ -417,6 +432,30 @@ func c12Finish(run *vlib.Run) {
 		if err := cmd.Run(); err != nil {
 			run.Inconclusive("dump process failed: " + err.Error())
 			return
+		}
+		// every fresh process is judged on its own, too: the documented words of the tables must resolve to their tables
+		for _, l := range strings.Split(out.String(), "\n") {
+			if !strings.HasPrefix(l, "getinfo ") {
+				continue
+			}
+			run.Count("architecture_words_resolved_in_fresh_processes", 1)
+			var w string
+			if _, err := fmt.Sscanf(l, "getinfo %q", &w); err != nil {
+				continue
+			}
+			canon, known := c12Aliases[strings.ToLower(w)]
+			if w == "" {
+				canon, known = "x86_64", true
+			}
+			if !known {
+				continue
+			}
+			for _, t := range c12Tables {
+				if t.name == canon && t.hasTbl && !strings.Contains(l, fmt.Sprintf("-> %s id=%#x mask=%#x names=%d", t.info.Name, uint32(t.info.ID), t.info.SeccompMask, len(t.info.SyscallNames))) {
+					run.Violation("alias-in-fresh-process:"+strings.ToLower(w), fmt.Sprintf("fresh process %d: %s; that word denotes the %s table", i, l, canon), map[string]any{"check": "C12", "line": l})
+					return
+				}
+			}
 		}
 		h := sha256.Sum256(out.Bytes())
 		mu.Lock()
